@@ -669,6 +669,19 @@ class ExpressionValue(Value):
     def extract_address_index_from_expression(self):
         return self.left.int if self.left.is_address() else self.right.int
 
+    def constant_displacement(self):
+        """
+        For LABEL+n, LABEL-n and n+LABEL returns the signed constant that is added to the
+        address of the label. Returns None for any other address expression.
+        """
+        if self.operation == "+" and self.left.is_address() and self.right.is_numeric():
+            return -self.right.int if self.right.is_negative() else self.right.int
+        if self.operation == "+" and self.right.is_address() and self.left.is_numeric():
+            return -self.left.int if self.left.is_negative() else self.left.int
+        if self.operation == "-" and self.left.is_address() and self.right.is_numeric():
+            return self.right.int if self.right.is_negative() else -self.right.int
+        return None
+
     def calculate_address_offset(self, statements):
         left = statements[self.left.int].code_pkg.address.int if self.left.is_address() else self.left.int
         right = statements[self.right.int].code_pkg.address.int if self.right.is_address() else self.right.int
